@@ -59,6 +59,8 @@ class Exec:
         self.unrolled_total = 0
         self.unresolved_calls: List[str] = []
         self.global_overrides: Dict[Tuple[str, str], Term] = {}
+        self.item_overrides: Dict[Tuple[str, str, Any], Term] = {}  # (module, module-level dict, constant key) -> registered implementation
+        self.registry: Dict[str, Term] = {}  # "AES128" -> class registered through register_AES128, ...
         self.global_store: Dict[Tuple[str, str], Term] = {}
         self.registered = registered
         self.notes: List[str] = []
@@ -72,7 +74,7 @@ class Exec:
         self.replaced_bases: set = set()
         if registered:
             self._bind_registry()
-            for t in self.global_overrides.values():
+            for t in list(self.global_overrides.values()) + list(self.item_overrides.values()):
                 if t.op == "class":
                     rc = self.prog.classes.get(t.args[0])
                     if rc is not None:
@@ -95,13 +97,18 @@ class Exec:
                     for d in st.decorator_list:
                         tgt = self.prog.resolve_expr_static(m, d)
                         if isinstance(tgt, FuncInfo):
-                            g = _registry_global(tgt)
-                            if g:
+                            slot = _registry_slot(tgt)
+                            if slot:
                                 obj = m.symbols.get(st.name)
-                                if obj and obj[0] == "class":
-                                    self.global_overrides[(tgt.module.name, g)] = mk("class", obj[1].qualname)
-                                elif obj and obj[0] == "func":
-                                    self.global_overrides[(tgt.module.name, g)] = self.fterm(obj[1])
+                                val = mk("class", obj[1].qualname) if obj and obj[0] == "class" else self.fterm(obj[1]) if obj and obj[0] == "func" else None
+                                if val is None:
+                                    continue
+                                if slot[0] == "global":
+                                    self.global_overrides[(tgt.module.name, slot[1])] = val
+                                else:
+                                    self.item_overrides[(tgt.module.name, slot[1], slot[2])] = val
+                                # the implementation registered through register_<NAME>
+                                self.registry[tgt.name[len("register_"):] if tgt.name.startswith("register_") else tgt.name] = val
 
     # ------------------------------------------------------------------ helpers
     def fterm(self, fi: FuncInfo) -> Term:
@@ -261,10 +268,13 @@ class Exec:
                 v = self.ev(fi.node.body, st)
                 st.envs.pop()
                 return v, st
+            trace0 = len(self.trace)
             if fi.is_generator:
                 lst = self.new_obj(st, "list", label="gen:" + fi.name)
                 o = self.obj(st, lst)
-                o.exact = False
+                # concrete-control scenarios run the generator body to its end on concrete control: the yielded values are known one by one
+                # (the body is run eagerly: sound for the verdicts drawn from scenarios as long as the consumer does not share state with the generator)
+                o.exact = bool(self.sym_bytes)
                 o.is_gen = True
                 fr.yields = lst.args[0]
             end = self.block(fi.node.body, st)
@@ -278,6 +288,14 @@ class Exec:
             merged.envs.pop()
             if fi.is_generator:
                 val = mk("ref", fr.yields, "gen:" + fi.name)
+                go = merged.heap.get(fr.yields)
+                if go is not None and not go.exact:
+                    # a state that leaves a loop by `return` has not seen the yields of that loop's (abstract) iteration: the stream is what the frame's
+                    # yield events say, whichever path ends the generator
+                    depth = len(self.frames)
+                    ys = [e for e in self.trace[trace0:] if e.kind == "yield" and len(e.stack) == depth and e.fn is fi]
+                    if len(ys) > len(go.items):
+                        go.items = [(e.d["value"], e.ctx, "yield") for e in ys]
             st.heap, st.envs, st.facts = merged.heap, merged.envs, merged.facts
             return val, st
         finally:
@@ -364,14 +382,25 @@ class Exec:
 
 
 def _registry_global(fi: FuncInfo) -> Optional[str]:
+    slot = _registry_slot(fi)
+    return slot[1] if slot and slot[0] == "global" else None
+
+
+def _registry_slot(fi: FuncInfo):
+    """where a one-argument registration function stores its argument: ("global", G) for `global G; G = impl`,
+    ("item", D, key) for `D[<constant key>] = impl` on a module-level dictionary D"""
     if not isinstance(fi.node, ast.FunctionDef) or len(fi.params) != 1:
         return None
     g = None
     for s in fi.node.body:
         if isinstance(s, ast.Global) and len(s.names) == 1:
             g = s.names[0]
-        if isinstance(s, ast.Assign) and g and len(s.targets) == 1 and isinstance(s.targets[0], ast.Name) and s.targets[0].id == g and isinstance(s.value, ast.Name) and s.value.id == fi.params[0]:
-            return g
+        if isinstance(s, ast.Assign) and len(s.targets) == 1 and isinstance(s.value, ast.Name) and s.value.id == fi.params[0]:
+            t = s.targets[0]
+            if g and isinstance(t, ast.Name) and t.id == g:
+                return ("global", g)
+            if isinstance(t, ast.Subscript) and isinstance(t.value, ast.Name) and isinstance(t.slice, ast.Constant) and t.value.id not in fi.params:
+                return ("item", t.value.id, t.slice.value)
     return None
 
 
